@@ -154,6 +154,52 @@ def exotic(v, seed):
     return rec(v, True)
 
 
+def alias(v, seed):
+    """Return a copy of v in which some sub-containers are *shared*: the very same dict/list object is referenced from
+    two or more places (a DAG, never a cycle) - what programmatically built data often looks like.  The result is
+    JSON-equal to v with duplicated content."""
+    state = [seed & 0xFFFFFFFF]
+
+    def nxt():
+        state[0] = (state[0] * 1103515245 + 12345) & 0x7FFFFFFF
+        return state[0] >> 8
+
+    v = fresh(v)
+    pool = []
+    stack = [v]
+    while stack:
+        x = stack.pop()
+        kids = list(x.values()) if isinstance(x, dict) else list(x) if isinstance(x, list) else []
+        for c in kids:
+            if isinstance(c, (dict, list)):
+                pool.append(c)
+                stack.append(c)
+    if not pool:
+        shared = [1, {"a": [2]}]
+        if isinstance(v, list):
+            v.extend([shared, shared])
+        elif isinstance(v, dict):
+            v["a"] = shared
+            v["b"] = shared
+        return v
+    # re-reference existing sub-containers at other places (only below nodes that are not inside the shared object)
+    for _ in range(1 + nxt() % 3):
+        shared = pool[nxt() % len(pool)]
+        inside = set()
+        st = [shared]
+        while st:
+            y = st.pop()
+            inside.add(id(y))
+            st.extend(c for c in (y.values() if isinstance(y, dict) else y if isinstance(y, list) else []) if isinstance(c, (dict, list)))
+        hosts = [h for h in [v] + pool if id(h) not in inside]
+        host = hosts[nxt() % len(hosts)]
+        if isinstance(host, list):
+            host.insert(nxt() % (len(host) + 1), shared)
+        else:
+            host["s%d" % (nxt() % 3)] = shared
+    return v
+
+
 def container(r, depth=3, names=None, budget=None, strings=None, falsy_bias=0.0, wide_p=0.04):
     """A non-scalar value (so that queries have something to select)."""
     names = names or SIMPLE_NAMES
